@@ -684,6 +684,24 @@ def opCliCoring (j : Json) : Except String Json := do
       | .error e => return Json.mkObj [("model", Json.mkObj [("err", Json.str e.name)]), ("holds", Json.bool true)]
       | .ok cored => return Json.mkObj [("model", Json.mkObj [("ok", ofInts cored.flatten)]), ("holds", Json.bool true)]
 
+/-- C12: small deterministic utilities (`row_normalize_matrix`, `matrix_power`, `find_first`) -/
+def opUtils (j : Json) : Except String Json := do
+  let kind ← str? (← field j "kind")
+  match kind with
+  | "rownorm" =>
+    let m ← ratMat? (← field j "M")
+    return Json.mkObj [("model", Json.mkObj [("ok", ofRatMat (Msm.rowNormalizeQ m))]), ("holds", Json.bool true)]
+  | "matpow" =>
+    let m ← ratMat? (← field j "M")
+    let k ← nat? (← field j "k")
+    return Json.mkObj [("model", Json.mkObj [("ok", ofRatMat (Linalg.powFast m k))]), ("holds", Json.bool true)]
+  | "find_first" =>
+    let l ← ints? (← field j "list")
+    let v ← int? (← field j "val")
+    let r : Int := if l.contains v then (l.idxOf v : Nat) else -1
+    return Json.mkObj [("model", Json.mkObj [("ok", ofInt r)]), ("holds", Json.bool true)]
+  | _ => throw "bad utils kind"
+
 def dispatch (j : Json) : Except String Json := do
   let op ← str? (← field j "op")
   match op with
@@ -715,6 +733,7 @@ def dispatch (j : Json) : Except String Json := do
   | "io_read" => opIoRead j
   | "chunks" => opChunks j
   | "cli_coring" => opCliCoring j
+  | "utils" => opUtils j
   | _ => throw s!"unknown op {op}"
 
 end MsmVerif.Driver
